@@ -546,6 +546,24 @@ def vals (s : MFI) (k : Candle Rat) : Except Panic (List VExp × MFI) := do
   pure ([.exact (1 - s.zone), value, .exact s.zone],
         { s with window := w, last_prev_candle := last, prev_candle := k, pmf := pmf, nmf := nmf })
 
+/-- the same step with the typical price supplied by the caller (the driver passes the price as the code forms it, every
+    operation rounded: whether the typical price rose, fell or stayed is decided on those values; `valsF Candle.tp = vals`) -/
+def tfuncF (tp : Candle Rat → Rat) (c last : Candle Rat) : Rat × Rat :=
+  ((if tp last < tp c then c.volume else 0), (if tp c < tp last then c.volume else 0))
+
+def valsF (tp : Candle Rat → Rat) (s : MFI) (k : Candle Rat) : Except Panic (List VExp × MFI) := do
+  let (pos, neg) := tfuncF tp k s.prev_candle
+  let (last, w) ← s.window.push k
+  let (lp, ln) := tfuncF tp last s.last_prev_candle
+  let pmf := s.pmf + (pos - lp)
+  let nmf := s.nmf + (neg - ln)
+  let n : Rat := (s.period : Rat)
+  let value : VExp := .quot pmf (pmf + nmf) n (2 * n) .vol [nmf] (some half)
+  pure ([.exact (1 - s.zone), value, .exact s.zone],
+        { s with window := w, last_prev_candle := last, prev_candle := k, pmf := pmf, nmf := nmf })
+
+theorem valsF_tp (s : MFI) (k : Candle Rat) : valsF (fun c => c.tp) s k = vals s k := rfl
+
 def sigs (s : MFI) (v : List Rat) (rnd : Rat → Rat := id) : List Action × MFI :=
   let value := v.getD 1 0
   let (cu, xu) := s.cross_upper.next (value, rnd (1 - s.zone))
